@@ -61,6 +61,9 @@ OPTION_SETS = [
     ("bmax5", ["bmax=5"]),
     ("bmult1-automatic", ["bmult=1", "score=automatic"]),
     ("spurious", ["score=spurious"]),
+    # `bmult=0` with no other limit: the documented default rule gives bmax = 0 * classes + 1 = 1, the search stops at the first
+    # unproductive step (seed c19-x dropped the `+ 1`: bmax = 0 means "no limit" and the search never ends)
+    ("bmult0", ["bmult=0"]),
     # the number of match lengths the spurious score looks at (documented option; its tables are sized by it)
     ("range10-automatic-imax8", ["score=automatic", "spurious_range=10", "imax=8"]),
     ("range9-spurious-imax8", ["score=spurious", "spurious_range=9", "imax=8"]),
